@@ -1463,11 +1463,13 @@ func (h *host) addExtEntry(e DirEntry) {
 	case "dangling":
 		os.Symlink(filepath.Join(h.tmpRoot, "targets", "missing-"+e.Name), p)
 	case "fifo":
-		syscall.Mkfifo(p, 0o755)
+		if err := syscall.Mkfifo(p, 0o755); err != nil {
+			h.note("driver", "mkfifo-failed:"+err.Error())
+		}
 	case "socket":
-		if l, err := net.ListenUnix("unix", &net.UnixAddr{Name: p, Net: "unix"}); err == nil {
-			l.SetUnlinkOnClose(false)
-			l.Close()
+		// (not by binding a listener: a bound path may be 107 bytes long at most, and the work directory can be deep)
+		if err := syscall.Mknod(p, syscall.S_IFSOCK|0o755, 0); err != nil {
+			h.note("driver", "mknod-socket-failed:"+err.Error())
 		}
 	default:
 		os.WriteFile(p, []byte("#!/bin/sh\n"), 0o755)
